@@ -406,7 +406,21 @@ pub fn drive_c08(a: &Args) {
     // escape-attempt family
     let digits = [48u32, 50, 51, 70];
     let ctx: [Vec<u32>; 3] = [vec![], vec![92], vec![48]];
-    for ds in all_strings(&digits, a.sz(5, 6)) {
+    let mut digit_seqs = all_strings(&digits, a.sz(5, 6));
+    // six and seven digits with leading zeros: the value fits, the digit count does not
+    for (k, ds) in all_strings(&digits, 5).into_iter().enumerate() {
+        if ds.len() == 5 && (a.thorough() || k % 4 == (a.seed as usize) % 4) {
+            let mut six = vec![48];
+            six.extend(ds.iter());
+            let mut seven = vec![48, 48];
+            seven.extend(ds.iter());
+            digit_seqs.push(six);
+            digit_seqs.push(seven);
+        }
+    }
+    digit_seqs.push(vec![48, 48, 48, 48, 52, 49]);
+    digit_seqs.push(vec![48, 49, 70, 54, 48, 48]);
+    for ds in digit_seqs {
         for open in [false, true] {
             for close in [false, true] {
                 let (pre, post) = if a.thorough() { (rng.pick(&ctx).clone(), rng.pick(&ctx).clone()) } else { (vec![], rng.pick(&ctx).clone()) };
